@@ -5,7 +5,7 @@ from .. import shutdown_h as H
 from ..runner import Suite
 
 MANIFEST = dict(
-    text="Lean 4 theorems about a model of StdioClient.__aexit__/_terminate_process against an abstract child (any reaction to SIGTERM, already exited or not, reading or not, flooding, closed pipes) with the two grace periods regenerated from the source: for every exit path {normal, exception, outer cancellation, timeout around the context}, every child and every OS the exit returns within g1+g2 = 2 s; with the termination sequence shielded from cancellation the child is reaped (OS facts as explicit hypotheses: SIGKILL ends a process within the second grace period, wait reaps); without the shield the cancelled paths leave a live child running (the defect, as a theorem); a pending request returns only the payload of a line the child wrote; an unstartable command makes entering raise. Tied to the code by a correspondence run with REAL child processes (well-behaved, exits at step k, ignores SIGTERM, never reads, floods, closes stdout/stdin, slow start) x exit paths x moments x {stdio_client, StdioTransport, StdioClient}, observing the process table (/proc), wall-clock exit duration, descriptor count and request outcomes.",
+    text="Lean 4 theorems about a model of StdioClient.__aexit__/_terminate_process against an abstract child (any reaction to SIGTERM, already exited or not, reading or not, flooding, closed pipes) with the two grace periods regenerated from the source: for every exit path {normal, exception, outer cancellation, timeout around the context}, every child and every OS the exit returns within g1+g2 = 2 s; with the termination sequence shielded from cancellation the child is reaped (OS facts as explicit hypotheses: SIGKILL ends a process within the second grace period, wait reaps); without the shield the cancelled paths leave a live child running (the defect, as a theorem); a pending request returns only the payload of a line the child wrote; an unstartable command makes entering raise; the whole exit (leave = pre-cancel step + exit) is bounded for every backlog iff the wait for the stdin writer is bounded (an unbounded wait never returns against a non-reading child, as a theorem); cancellation during entry leaves no child unless __aenter__ has a cancellable await between spawn and ownership. Tied to the code by a correspondence run with REAL child processes (well-behaved, exits at step k, ignores SIGTERM, never reads, floods, closes stdout/stdin, slow start) x exit paths x moments (incl. a large backlog of queued output at exit, and cancellation while the context is being entered) x {stdio_client, StdioTransport, StdioClient}, observing the process table (/proc), wall-clock exit duration, descriptor count and request outcomes.",
     note="Partial by nature: descriptors, the process table, signal delivery and the promptness of task cancellation are runtime facts; they are decided only by the correspondence run with real children (the model has no descriptors). The wall-clock bound used by the oracle is 2 s + 3 s scheduling slack.",
     technique="Lean 4 proof over a hand-written state-machine model (constants regenerated from source) + correspondence run with real child processes and /proc observation",
     design="5/C16",
@@ -22,15 +22,25 @@ THEOREMS = [
     "c16_no_fabricated_result",
     "c16_silent_child_times_out",
     "c16_bad_command_raises",
+    "c16_leave_bounded",
+    "c16_leave_sound",
+    "c16_unbounded_flush_never_returns",
+    "c16_unbounded_flush_waits_for_child",
+    "c16_entry_cancel_no_orphan",
+    "c16_entry_gap_orphans",
 ]
 RULE = (
     "real children {well-behaved, exits at step k (k=0..4), ignores SIGTERM after signalling readiness, never reads stdin, "
-    "floods stdout (valid / junk lines), closes stdout, closes stdin, slow start} x exit path {normal, exception in body, "
-    "outer cancellation, timeout around the context} x moment {before first message, request in flight, after response(s)} "
-    "x API {stdio_client, StdioTransport, StdioClient}; quick: 17 directed scenarios + 4 seeded ones + 3 unstartable "
-    "commands; thorough: the full product; observed: /proc state of the child after the exit, wall-clock exit duration "
-    "against 2 s + 3 s slack, /proc/self/fd count before/after, outcome of every awaited request; non-trivial = a scenario "
-    "in which the context was entered"
+    "stops reading after its first answer, floods stdout (valid / junk lines), closes stdout, closes stdin, slow start} x "
+    "exit path {normal, exception in body, outer cancellation, timeout around the context} x moment {before first message, "
+    "request in flight, after response(s)} x API {stdio_client, StdioTransport, StdioClient}; the same with a BACKLOG of 40 "
+    "queued outgoing 16 kB messages (10x pipe + write buffer) at the moment of the exit for the children that do not read; "
+    "cancellation / timeout WHILE THE CONTEXT IS BEING ENTERED: the deadline of a scope around the whole async-with scanned "
+    "0..160 ms in 8 ms steps (thorough 0..200 ms in 2 ms steps) for a slow-starting and a normal child, both cancelled paths; "
+    "quick: 23 directed scenarios + 4 seeded ones + 42 entry deadlines + 3 unstartable commands; thorough: the full "
+    "products; observed: /proc state of the child after the exit, wall-clock exit duration against 2 s + 3 s slack (an exit "
+    "still running 5.5 s after it began is released by killing the child and reported), /proc/self/fd count before/after, "
+    "outcome of every awaited request; non-trivial = a scenario in which the context was entered or its entry was cut"
 )
 TRUSTED = [
     "the /proc scan of py/verifpy/shutdown_h.py (a process whose command line names the scenario's temp directory is the child; a new zombie whose parent is the harness process is an unreaped child)",
@@ -40,9 +50,12 @@ ASSUMPTIONS = [
     "scheduling slack of the wall-clock bound: 3 s (bound = 1 s + 1 s + 3 s)",
     "process state and descriptor count are read when the exit returns and may settle for at most 1.5 s while the event loop keeps running (the loop collects pipe transports a few iterations after the child's death); descriptors that are only released by the cyclic garbage collector count as leaked",
     "'outer cancellation' = the enclosing cancel scope is cancelled by another task; 'timeout around the context' = anyio.move_on_after around the async with",
+    "'at any point of a conversation' includes the entry: a cancellation that arrives while the context is being entered must leave no child and no descriptor either (whether the body was reached is recorded, not demanded)",
+    "which phase of the entry a deadline hits depends on wall-clock (spawn latency); the scan is dense (8 ms / 2 ms steps) rather than exact",
 ]
 
 BOUND_MS = H.GRACE_MS + H.SLACK_MS
+BACKLOG = 40            # x 16 kB: ten times what the 64 KiB pipe and the transport's write buffer take
 
 
 def _case(b, p, m, **kw):
@@ -83,8 +96,40 @@ DIRECTED = [
     _case("slow_start", "timeout", "before"),
     _case("slow_start", "normal", "after"),
     _case("well", "cancel", "after", api="StdioTransport"),
+    # a large backlog of queued outgoing messages at the moment of the exit, child not (or no longer) reading
+    _case("never_reads", "normal", "before", backlog=BACKLOG),
+    _case("never_reads", "exception", "inflight", backlog=BACKLOG),
+    _case("stops_reading", "normal", "after", backlog=BACKLOG),
+    _case("flood", "exception", "before", backlog=BACKLOG),
+    _case("well", "normal", "after", backlog=BACKLOG),
+    _case("never_reads", "cancel", "before", backlog=BACKLOG),
 ]
 BAD = [{"bad": b, "api": a} for b in ("missing", "not-executable", "directory", "bare-name") for a in H.APIS]
+
+
+def entry_scan(step, upto=200, apis=("stdio_client",)):
+    """cancellation / timeout WHILE the context is being entered: the deadline of a scope around the whole
+    `async with` scanned from 0 in small steps (before the spawn, during it, right after it, early body)"""
+    out = []
+    i = 0
+    for api in apis:
+        for d in range(0, upto + 1, step):
+            for b in ("slow_start", "well"):
+                # alternate the two cancelled paths over the grid so that each child sees both at every phase
+                p = ("timeout", "cancel")[(i + (b == "well")) % 2]
+                out.append({"behaviour": b, "path": p, "moment": "entry", "deadline_ms": d, "api": api, "nreq": 1})
+            i += 1
+    return out
+
+
+def backlog_product(apis=("stdio_client",)):
+    out = []
+    for api in apis:
+        for b in ("never_reads", "stops_reading", "flood", "close_stdin", "well", "ignore_term"):
+            for p in H.PATHS:
+                for m in H.MOMENTS:
+                    out.append(_case(b, p, m, api=api, backlog=BACKLOG))
+    return out
 
 
 class Scenarios(Suite):
@@ -93,13 +138,14 @@ class Scenarios(Suite):
     def cases(self, ctx, budget):
         rng = ctx.sub_rng("c16", budget)
         if budget == "quick":
-            full = product(H.APIS)
-            out = [dict(c) for c in DIRECTED] + rng.sample(full, 4)
+            full = product(H.APIS) + backlog_product()
+            out = [dict(c) for c in DIRECTED] + [dict(c) for c in rng.sample(full, 4)]
+            out += entry_scan(8, 160)
             out += [BAD[0], BAD[4], BAD[8]]
         elif budget == "thorough":
-            out = product(H.APIS) + BAD
+            out = product(H.APIS) + backlog_product(H.APIS) + entry_scan(2, 200) + entry_scan(8, 160, H.APIS[1:]) + BAD
         else:  # search
-            out = product(["stdio_client"], nreq=1, junk=False) + BAD[:4]
+            out = product(["stdio_client"], nreq=1, junk=False) + backlog_product() + entry_scan(4, 160) + BAD[:4]
         for i, c in enumerate(out):
             if "bad" not in c:
                 c["nonce"] = f"{budget[0]}{i}"
@@ -113,7 +159,7 @@ class Scenarios(Suite):
         if "bad" in case:
             return {"m": "shutdown", "bad": True}
         d = {"m": "shutdown", "behaviour": case["behaviour"], "path": case["path"], "moment": case["moment"],
-             "nreq": case.get("nreq", 1)}
+             "nreq": case.get("nreq", 1), "backlog": case.get("backlog", 0) * H.BACKLOG_BYTES}
         if "k" in case:
             d["k"] = case["k"]
         return d
@@ -122,7 +168,7 @@ class Scenarios(Suite):
         if "bad" in case:
             return {"raised_on_enter": out["raised_on_enter"]}
         return {"raised_on_enter": out["raised_on_enter"], "child": out["child"],
-                "bounded": out["duration"] <= out["bound"], "requests": out["requests"]}
+                "bounded": out["bounded"], "requests": out.get("requests", [])}
 
     def compare(self, case, o, m):
         if o.get("harness_error"):
@@ -130,7 +176,7 @@ class Scenarios(Suite):
         if "bad" in case:
             return None if (not o["entered"]) == m["raised_on_enter"] else "entering differs"
         mine = {
-            "raised_on_enter": not o["entered"],
+            "raised_on_enter": (not o["entered"]) and case["moment"] != "entry",
             "child": "reaped" if o["state"] == "gone" else o["state"],
             "bounded": (not o["hang"]) and o["duration_ms"] is not None and o["duration_ms"] <= BOUND_MS,
             "requests": ["returned" if r["outcome"] == "returned" else "timeout"
@@ -147,12 +193,28 @@ class Scenarios(Suite):
                 return (f"bad-command-entered/{case['bad']}", f"entering the context with an unstartable command "
                         f"({case['bad']}, {case.get('api')}) did not raise", {"raised_on_enter": True})
             return None
-        what = f"{case['behaviour']}{'/k=%d' % case['k'] if 'k' in case else ''} x {case['path']} x {case['moment']} ({case.get('api')})"
+        what = (f"{case['behaviour']}{'/k=%d' % case['k'] if 'k' in case else ''} x {case['path']} x {case['moment']}"
+                f"{' x %d queued messages of %d bytes' % (case['backlog'], H.BACKLOG_BYTES) if case.get('backlog') else ''} ({case.get('api')})")
+        if case["moment"] == "entry":
+            what = f"{case['behaviour']} x {case['path']} {case['deadline_ms']} ms after reaching the context ({case.get('api')})"
+            where = "entry" if not o["entered"] else "early-body"
+            if o["hang"] or o["duration_ms"] is None or o["duration_ms"] > BOUND_MS:
+                return (f"unbounded/{where}/{case['path']}", f"{what}: control came back {o['duration_ms']} ms after the "
+                        f"cancellation (bound {H.GRACE_MS} ms + {H.SLACK_MS} ms slack)", {"duration_ms": f"<= {BOUND_MS}"})
+            if o["state"] != "gone":
+                return (f"child-left-{o['state']}/{where}/{case['path']}", f"{what}: the cancellation arrived "
+                        f"{'while the context was being entered' if not o['entered'] else 'early in the body'}; the child is "
+                        f"{o['state']} afterwards ({o['fd_delta']} descriptors still open)", {"state": "gone", "fd_delta": 0})
+            if o["fd_delta"] is not None and o["fd_delta"] > 0:
+                return (f"fd-leak/{where}/{case['path']}", f"{what}: {o['fd_delta']} additional descriptor(s) open afterwards",
+                        {"fd_delta": 0})
+            return None
         if not o["entered"]:
             return None  # cannot happen with a startable command; nothing the property says about it
         if o["hang"] or o["duration_ms"] is None or o["duration_ms"] > BOUND_MS:
             return (f"unbounded/{case['path']}", f"{what}: leaving the context took "
-                    f"{'more than %d' % int(H.SCENARIO_TIMEOUT_S * 1000) if o['hang'] else o['duration_ms']} ms "
+                    f"{'more than %d' % H.HANG_AFTER_MS if o['hang'] else o['duration_ms']} ms"
+                    f"{' (it returned only after the harness killed the child)' if o['hang'] else ''} "
                     f"(bound {H.GRACE_MS} ms + {H.SLACK_MS} ms slack)", {"duration_ms": f"<= {BOUND_MS}"})
         if o["state"] == "running":
             return (f"child-left-running/{case['path']}", f"{what}: the child process is still running after the "
@@ -175,10 +237,12 @@ class Scenarios(Suite):
         if "bad" in case:
             return f"bad-command/{case['bad']}"
         b = case["behaviour"] + ("%d" % case["k"] if "k" in case else "")
-        return f"{b}/{case['path']}/{case['moment']}/{case.get('api')}"
+        if case["moment"] == "entry":
+            return f"{b}/{case['path']}/entry-{'cut' if not o['entered'] else 'body'}/{case.get('api')}"
+        return f"{b}/{case['path']}/{case['moment']}{'+backlog' if case.get('backlog') else ''}/{case.get('api')}"
 
     def nontrivial(self, case, o):
-        return "bad" not in case and o["entered"]
+        return "bad" not in case and (o["entered"] or case["moment"] == "entry")
 
     def shrink_candidates(self, case):
         if "bad" in case:
@@ -187,17 +251,23 @@ class Scenarios(Suite):
             return
         if case.get("api") != "stdio_client":
             yield dict(case, api="stdio_client")
+        if case["moment"] == "entry":
+            if case["behaviour"] != "well":
+                yield dict(case, behaviour="well")
+            return
+        if case.get("backlog"):
+            yield {k: v for k, v in case.items() if k != "backlog"}
         if case["behaviour"] != "well":
             c = {k: v for k, v in case.items() if k not in ("k", "junk")}
             yield dict(c, behaviour="well")
+            if case.get("backlog") and case["behaviour"] != "never_reads":
+                yield dict(c, behaviour="never_reads")
         if case.get("junk"):
             yield {k: v for k, v in case.items() if k != "junk"}
         if case["moment"] != "before":
             yield dict(case, moment="before")
         if case.get("nreq", 1) > 1 and case.get("k", 0) <= 2:
             yield dict(case, nreq=1)
-        if case["path"] == "exception":
-            yield dict(case, path="normal")
 
 
 def suites():
